@@ -240,3 +240,129 @@ def explore(run_leaf: Callable[[ScriptedPRNG], Any], max_leaves: int):
         if nxt is None:
             return leaves
         script = nxt
+
+
+# -- integer seeds ---------------------------------------------------------------------------------------
+class _IntSeedStream(ScriptedPRNG):
+    """What `np.random.RandomState(n)` is, for the explorer.  Two RandomState objects made from one
+    integer produce one stream of numbers, so generators of one family share, per seed, a log of what
+    is known about the k-th number of that stream:
+
+    * `choice(..., p=...)` consumes one uniform u_k per element and returns the index i with
+      cdf[i] <= u_k < cdf[i+1] (numpy: cdf.searchsorted(u, side='right')).  The first generator to
+      reach position k decides the outcome freely (master script, weight p[i]) and the log keeps the
+      interval of u_k; a later generator asking *any* choice question at position k gets an outcome
+      consistent with that interval -- decided with the conditional probabilities (overlap lengths) if
+      the interval straddles several of its cdf cells -- and narrows the interval.
+    * every other kind of draw (randint / choice without p, the symbolic uniform of the Kraus sampler)
+      is replayed only when exactly the same question is asked at the same position; anything else is
+      UnmodelledSeedReuse and the run is skipped, not judged.
+
+    Fresh and conditional decisions both go through the master script, so a path weight stays the
+    product of the probabilities of the decisions taken."""
+
+    def __init__(self, family: "IntSeedStreams", seed: int):
+        super().__init__()
+        self._family = family
+        self._seed = seed
+        self._k = 0
+        self._with_p = False
+
+    def choice(self, a, size=None, replace=True, p=None):
+        self._with_p = p is not None
+        try:
+            return super().choice(a, size=size, replace=replace, p=p)
+        finally:
+            self._with_p = False
+
+    def decide(self, kind: str, probs) -> int:
+        log = self._family.logs.setdefault(self._seed, [])
+        probs = [float(p) for p in probs]
+        k = self._k
+        self._k += 1
+        master = self._family.master
+        if kind == "choice" and self._with_p:
+            tot = sum(probs)
+            cdf = [0.0]
+            for p in probs:
+                cdf.append(cdf[-1] + p / tot)
+            if k >= len(log):
+                o = master.decide(kind, probs)
+                log.append(["u", cdf[o], cdf[o + 1]])
+                return o
+            entry = log[k]
+            if entry[0] != "u":
+                raise UnmodelledSeedReuse(f"seed {self._seed}, draw {k}: {entry[0]} then choice(p=...)")
+            lo, hi = entry[1], entry[2]
+            width = hi - lo
+            cond = [max(0.0, min(hi, cdf[i + 1]) - max(lo, cdf[i])) / width for i in range(len(probs))]
+            o = master.decide("choice|same-seed", cond)
+            entry[1], entry[2] = max(lo, cdf[o]), min(hi, cdf[o + 1])
+            self._family.replayed += 1
+            return o
+        sig = (kind, tuple(round(p, 9) for p in probs))
+        if k < len(log):
+            entry = log[k]
+            if entry[0] != "sig" or entry[1] != sig:
+                # same underlying numbers, different question: numpy's answer is correlated in a way
+                # this model does not compute
+                raise UnmodelledSeedReuse(f"generators made from seed {self._seed} ask different questions "
+                                          f"at draw {k}: {entry[:2]} / {sig}")
+            self._family.replayed += 1
+            return entry[2]
+        o = master.decide(kind, probs)
+        log.append(["sig", sig, o])
+        return o
+
+
+class UnmodelledSeedReuse(Exception):
+    pass
+
+
+class IntSeedStreams:
+    def __init__(self, master: ScriptedPRNG):
+        self.master = master
+        self.logs = {}
+        self.made = 0
+        self.replayed = 0
+
+    def make(self, seed=None):
+        if not isinstance(seed, (int, np.integer)):
+            raise HarnessError(f"np.random.RandomState({seed!r}) requested by the code under test is not scripted")
+        self.made += 1
+        return _IntSeedStream(self, int(seed))
+
+
+class int_seeds_scripted:
+    """Context manager: inside it, cirq.value.parse_random_state(<int>) -- the one place where the
+    library turns an integer seed into a generator -- yields scripted streams of `master`."""
+
+    def __init__(self, master: ScriptedPRNG):
+        self.family = IntSeedStreams(master)
+
+    def __enter__(self):
+        import cirq.value.random_state as rs_mod
+        family = self.family
+        real_np = rs_mod.np
+
+        class _Random:
+            def __getattr__(self, name):
+                return getattr(real_np.random, name)
+
+            @staticmethod
+            def RandomState(seed=None):
+                return family.make(seed)
+
+        class _NP:
+            random = _Random()
+
+            def __getattr__(self, name):
+                return getattr(real_np, name)
+
+        self._mod, self._real = rs_mod, real_np
+        rs_mod.np = _NP()
+        return family
+
+    def __exit__(self, *exc):
+        self._mod.np = self._real
+        return False
